@@ -132,7 +132,7 @@ def make_dist(ds):
     if k == "det":
         return d.Deterministic(value=ds[1])
     if k == "seq":
-        return d.Sequential(sequence=list(ds[1]))
+        return d.Sequential(sequence=[num(v) for v in ds[1]])
     if k == "exp":
         return d.Exponential(rate=ds[1])
     if k == "uni":
